@@ -121,7 +121,10 @@ FreshMS == [sc |-> sc, sf |-> sf, c1 |-> c1, c2 |-> c2, spends |-> {}, created |
 NoRen == [fr |-> 0, fh |-> 0, rr |-> 0, hr |-> 0, nc |-> NULL, auth |-> "ok"]
 EmptyTx(ver) == [ver |-> ver, sci |-> <<>>, sco |-> <<>>, sfi |-> <<>>, sfo |-> <<>>, fee |-> 0,
                  fc |-> <<>>, rev |-> <<>>, res |-> <<>>, fnd |-> "", fauth |-> "ok", att |-> 0, aauth |-> "ok", tag |-> "",
-                 slack |-> -1]   \* distance (in blocks) from the height at which the transaction's timing rule flips; -1: none
+                 slack |-> -1,   \* distance (in blocks) from the height at which the transaction's timing rule flips; -1: none
+                 big |-> ""]     \* "sf" / "sc": the first two siafund (siacoin) outputs are each 2^63 SF (2^127 H) larger than
+                                 \* stated - values TLC's integers cannot hold. The sums of such a transaction differ from the
+                                 \* stated ones by 2^64 (2^128): it balances only in arithmetic modulo the machine word.
 
 AuthOK(a) == a = "ok"
 
@@ -333,7 +336,7 @@ Apply2(m, t) ==
         !.ntx = @ + 1, !.nv2 = @ + 1,
         !.txs = Append(@, t)]
 
-ValidTx(m, t) == IF t.ver = 1 THEN m.nv2 = 0 /\ Valid1(m, t) ELSE Valid2(m, t)     \* v1 transactions precede v2 in a block
+ValidTx(m, t) == t.big = "" /\ IF t.ver = 1 THEN m.nv2 = 0 /\ Valid1(m, t) ELSE Valid2(m, t)     \* v1 transactions precede v2 in a block
 ApplyTx(m, t) == IF t.ver = 1 THEN Apply1(m, t) ELSE Apply2(m, t)
 
 -----------------------------------------------------------------------------
@@ -436,6 +439,8 @@ Vary(t) == IF t.sco # <<>> /\ t.sco[1].val > 1 THEN [t EXCEPT !.sco[1].val = @ -
 Mut(m, t) ==
      (IF "unbalanced" \in Defects /\ t.sco # <<>> THEN {Tag([t EXCEPT !.sco[1].val = @ + 1], "plus1"), Tag([t EXCEPT !.fee = @ + 1], "fee1")} ELSE {})
 \cup (IF "unbalanced" \in Defects /\ t.sco # <<>> /\ t.sco[1].val > 1 THEN {Tag([t EXCEPT !.sco[1].val = @ - 1], "minus1")} ELSE {})
+\cup (IF "wrap" \in Defects /\ t.sfo # <<>> THEN {Tag([t EXCEPT !.big = "sf"], "sfwrap")} ELSE {})
+\cup (IF "wrap" \in Defects /\ t.sco # <<>> /\ t.sci # <<>> THEN {Tag([t EXCEPT !.big = "sc"], "scwrap")} ELSE {})
 \cup (IF "zero" \in Defects /\ t.sco # <<>> /\ t.sci # <<>> THEN {Tag([t EXCEPT !.sco = Append(@, Out(0, "A"))], "zero")} ELSE {})
 \cup (IF "auth" \in Defects /\ t.sci # <<>> THEN {Tag([t EXCEPT !.sci[1].auth = a], a) : a \in {"badsig", "nosig", "wrongkey"}} ELSE {})
 \cup (IF "auth" \in Defects /\ t.att > 0 THEN {Tag([t EXCEPT !.aauth = "badsig"], "badsig")} ELSE {})
@@ -487,6 +492,11 @@ BadCand(m) ==
 \cup (IF "immature" \in Defects THEN
         {[EmptyTx(q[1]) EXCEPT !.sci = <<In(q[2])>>, !.sco = <<Out(m.sc[q[2]].val, m.sc[q[2]].addr)>>, !.tag = "immature"] :
             q \in Vers \X {y \in DOMAIN m.sc : y \notin m.spends /\ m.sc[y].mat > child /\ m.sc[y].val > 0 /\ m.sc[y].addr \in Owners}} ELSE {})
+\* the same for an immature output created in this block, presented by a v2 transaction as mature (stated maturity 0):
+\* from the ephemeral-output height on the stated element must equal the created one
+\cup (IF "immature" \in Defects /\ 2 \in Vers /\ child >= EphH THEN
+        {[EmptyTx(2) EXCEPT !.sci = <<[id |-> y, auth |-> "mislabel-mat"]>>, !.sco = <<Out(m.sc[y].val, m.sc[y].addr)>>, !.tag = "immature!mislabel"] :
+            y \in {z \in DOMAIN m.sc : z \in m.created /\ z \notin m.spends /\ m.sc[z].mat > child /\ m.sc[z].val > 0 /\ m.sc[z].addr \in Owners}} ELSE {})
 \* every revision / proof / expiration of every live contract, whatever the height: BadTxn keeps the invalid ones
 \cup (IF "timing" \in Defects THEN
         {Tag(t, "timing") : t \in
@@ -554,9 +564,14 @@ Post(s) == IF ~HistPost THEN [none |-> TRUE] ELSE
 \* pays it out in two outputs (allowed in blocks without v2 data, forbidden with them)
 BlockDefects == IF "payout" \in Defects THEN {"payout+1", "payout-1", "payout-split"} ELSE {}
 BlockVerdict(d) == IF d = "payout-split" /\ child < AllowH THEN "accept" ELSE "reject"
+\* the miner payout forgets the fees of the block's v1 (v2) transactions
+RECURSIVE FeesOf(_, _)
+FeesOf(txs, v) == IF txs = <<>> THEN 0 ELSE (IF Head(txs).ver = v THEN Head(txs).fee ELSE 0) + FeesOf(Tail(txs), v)
+FeeDefects(m) == IF "payout" \notin Defects THEN {} ELSE
+                   {d \in {"payout-nov1fees", "payout-nov2fees"} : FeesOf(m.txs, IF d = "payout-nov1fees" THEN 1 ELSE 2) > 0}
 EndBad ==
   /\ ms # NULL /\ ~ms.bad
-  /\ \E d \in BlockDefects : BlockVerdict(d) = "reject"
+  /\ \E d \in BlockDefects \cup FeeDefects(ms) : BlockVerdict(d) = "reject"
         /\ hist' = Append(hist, [op |-> "block", verdict |-> "reject", txs |-> ms.txs, bdefect |-> d])
   /\ ms' = NULL /\ UNCHANGED <<committed, undo, nrev>>
 End ==
